@@ -60,6 +60,8 @@ class Config:
     sched: dict[str, str] = field(default_factory=dict)  # param -> fn name
     steps0: int = 0              # the history starts from a step counter
     # restored with load_state_dict({'steps': steps0}) into the fresh instance
+    overflow: Any = None         # [iteration, rank]: that rank's scaled loss
+    # overflows in that iteration (non-finite gradients, as under AMP)
     keep_grads: bool = False     # optimizer.zero_grad(set_to_none=False): the
     # gradient tensors survive from one iteration to the next
     grad_scaler: Any = None      # float: constant loss scale; 'dyn<base>':
@@ -511,6 +513,8 @@ class RankRun:
             out = self.model(x)
             if backward:
                 loss = loss_fn(out, y, out.shape[0] // cfg.union, None)
+                if cfg.overflow and list(cfg.overflow) == [self.it, self.rank]:
+                    loss = loss * float('inf')
                 scaled_backward(self.model, self.pre, loss, sc)
         if backward:
             with torch.no_grad():
